@@ -7,7 +7,8 @@ from vlib import strings as S
 
 ID = "C05"
 PROP_FILE = "Props/C05.v"
-RULE = ("enums with N = 0..8 enabled variants (field-less, with payloads, generic, with interleaved disabled variants), each built "
+RULE = ("enums with N = 0..8 enabled variants (field-less, with payloads, generic, with interleaved disabled variants) and LARGE enums with "
+        "255 / 256 / 257 enabled variants driven to exhaustion from either end, each built "
         "in a dev AND a release crate. Histories: (a) state cover: every (front, back) cursor pair reachable in the model "
         "(including the frozen ones) is reached by a shortest prefix, then every operation of the alphabet {next, next_back, "
         "nth k, nth_back k, len, size_hint, clone-then-diverge}, k in {0..N+1, usize::MAX-1, usize::MAX}, then a probe suffix "
@@ -77,6 +78,26 @@ def build_corpus(tier, rng):
         defs.append((n, mk(n, payload=True), "payload"))
     defs.append((3, mk(3, payload=True, generic=True), "generic"))
     defs.append((4, mk(4, disabled_mask=0b11, payload=True, generic=True), "generic"))
+    # LARGE enums: cursor widths (a cursor must be able to hold COUNT itself): 255 / 256 / 257 (65536 variants cost rustc more than ten minutes and several GB per crate: not run)
+    for n in (255, 256, 257):
+        it = Item("E", [Variant("V%d" % i, "unit") for i in range(n)])
+        if n == 257:
+            it.variants.insert(100, Variant("Off", "tuple", [Field("u8")], [DISABLED]))
+        k = c.add_def(it, family="large", derives=["EnumIter"], n=n)
+        c.add_q(k, "struct", ["EnumIter"], note="structure")
+        drive = [["0:t%d" % (n - 1), "0:n"], ["0:t%d" % n], ["0:u%d" % (n - 1), "0:b"], ["0:u%d" % n], ["0:t%d" % MAXU], ["0:u%d" % MAXU],
+                 ["0:t%d" % (n - 2), "0:b", "0:n"], ["0:n", "0:n", "0:u%d" % (n - 4), "0:b", "0:b"], ["0:t%d" % (n // 2), "0:u%d" % (n - n // 2 - 2), "0:n"],
+                 ["0:t127", "0:t127", "0:n"], ["0:t%d" % (n - 3), "c0", "1:n", "1:n", "1:n", "0:b", "0:b", "0:b"]]
+        for d in drive:
+            for tail in (probe(), ["0:l", "0:n", "0:l", "0:b", "0:l", "0:t0", "0:u0", "0:h"], ["c0", "1:l", "1:n", "1:b", "0:l", "1:l"]):
+                c.add_q(k, "iterops", d + tail, note="large")
+        bigks = sorted({0, 1, 127, 128, 254, 255, 256, 257, n - 1, n, n + 1, MAXU})
+        for _ in range(200 if thorough else 40):
+            seq = ["0:%s%d" % (rng.choice("tu"), rng.choice(bigks)) if rng.random() < 0.6 else "0:" + rng.choice(["n", "b", "l", "h"])
+                   for _ in range(rng.randint(2, 10))]
+            c.add_q(k, "iterops", seq + probe(), note="large")
+        for a in ["count", "last", "skip:%d" % (n - 1), "skip:%d" % n, "skiprev:%d" % (n - 1), "stepby:%d" % (n - 1), "stepby:%d" % n, "take:2"]:
+            c.add_q(k, "adapt", [a], note="adapter")
     for n, it, fam in defs:
         k = c.add_def(it, family=fam, derives=["EnumIter"], n=n)
         c.add_q(k, "struct", ["EnumIter"], note="structure")
